@@ -71,7 +71,7 @@ C05_Complete(obs, gg) ==
     \A x \in {y \in gg.emitted : ~Unreliable(y.t)} : \A cs \in x.must :
         (obs.srv.cl[cs[1]].conn /\ obs.ev.sess[cs[1]] = cs[2] /\ obs.cli[cs[1]].status = "Connected") =>
             (\/ [c |-> cs[1], sess |-> cs[2], t |-> x.t, id |-> x.id] \in gg.delivered
-             \/ (Mapped(x.t) /\ x.e # None /\ x.e \notin DOMAIN obs.cli[cs[1]].ents))   \* withheld: unresolvable
+             \/ ~(Refs(x) \subseteq DOMAIN obs.cli[cs[1]].ents))   \* withheld: unresolvable
 
 ----------------------------------------------------------------------------
 (* client -> server events: `sdl` = sequence of deliveries [t, id, from, e] observed by server logic *)
